@@ -116,6 +116,7 @@ def check(F, run, tier):
     run.add(palette_bound(F, S))
     run.add(ic.pitch_law(F, S))
     run.add(ic.write_pixels_shape(F, S))
+    run.add(ic.pixel_size_check_width(F, S))
     wp = F.fn(B + "::WritePixels", nparams=5)
     pitch_t = ("call", IH + "::CalculatePitch", None, (P(wp, 4), P(wp, 2)))
     bytes_t = ("call", IH + "::CalcPixelByteWidth", None, (P(wp, 4), P(wp, 2)))
